@@ -199,6 +199,10 @@ def dup_leaf(x):
     CALLS.append("dup_leaf")
     return "dup:%r" % (x,)
 
+def ml_leaf(x):
+    CALLS.append("ml_leaf")
+    return "ml:%r" % (x,)
+
 def with_runtime(x):
     CALLS.append("with_runtime")
     return x + 1
@@ -240,6 +244,11 @@ def root():
     else:
         out["dup"] = dds.keep("/c/dup", dup_leaf, out["plain"])
     out["ann"] = annotated()
+    out["ml"] = dds.keep(
+        "/c/ml",
+        ml_leaf,
+        out["scaled"] + 1,
+    )
     return out
 ''',
 }
@@ -253,7 +262,7 @@ import os, importlib
 shipped = importlib.import_module(os.environ.get("CORPUS_PKG", "corp") + ".helpers").shipped
 '''
 
-ALL = ["/c/plain", "/c/scaled", "/c/items", "/c/flag", "/c/pair", "/c/direct", "/c/kw", "/c/href", "/c/batch", "/c/rate", "/c/tags", "/c/unit", "/c/li", "/c/crlf", "/c/method", "/c/clsattr", "/c/reexp", "/c/ext", "/c/args", "/c/args2", "/c/args3", "/c/rt", "/c/dup", "/c/ann_root", "/c/annotated", "/c/top_args"]
+ALL = ["/c/plain", "/c/scaled", "/c/items", "/c/flag", "/c/pair", "/c/direct", "/c/kw", "/c/href", "/c/batch", "/c/rate", "/c/tags", "/c/unit", "/c/li", "/c/crlf", "/c/method", "/c/clsattr", "/c/reexp", "/c/ext", "/c/args", "/c/args2", "/c/args3", "/c/rt", "/c/dup", "/c/ml", "/c/ann_root", "/c/annotated", "/c/top_args"]
 # edits: (name, file, old, new, kept paths whose cone contains the edit [besides the root], value must change for these)
 EDITS = [
     ("callee body (transitive)", "corp/helpers.py", "return 10", "return 11", ["/c/scaled", "/c/rt"]),
@@ -278,23 +287,24 @@ EDITS = [
     ("static method body", "corp/helpers.py", "return 55", "return 56", ["/c/method", "/c/rt"]),
     # (a class is a dependency as a whole: every user of Conf is in the cone of an edit anywhere in the class body)
     ("class attribute read without a call", "corp/helpers.py", "LIMIT = 5", "LIMIT = 6", ["/c/clsattr", "/c/method", "/c/rt"]),
+    ("run-time argument on a continuation line of a multi-line keep call", "corp/pipe.py", 'out["scaled"] + 1,', 'out["scaled"] + 2,', ["/c/ml"]),
     ("unused variable", "corp/consts.py", "UNUSED = 10", "UNUSED = 11", []),
     ("two function definitions reordered", "corp/helpers.py", 'def untouched():\n    return "constant"\n\ndef weight():\n    return 7\n', 'def weight():\n    return 7\n\ndef untouched():\n    return "constant"\n', []),
     ("comment and blank lines added between definitions", "corp/helpers.py", "def weight():", "# a remark about weights\n\n\ndef weight():", []),
     ("unrelated definition added", "corp/helpers.py", "def untouched():", "def brand_new():\n    return 0\n\ndef untouched():", []),
     ("non-accepted module body", "extmod.py", "return x * 100", "return x * 200", []),
 ]
-EDITS = [(n_, f_, o_, w_, (c_ + ["/c/dup"]) if "/c/rt" in c_ else c_) for (n_, f_, o_, w_, c_) in EDITS]
+EDITS = [(n_, f_, o_, w_, (c_ + ["/c/dup", "/c/ml"]) if "/c/rt" in c_ else ((c_ + ["/c/ml"]) if "/c/annotated" in c_ else c_)) for (n_, f_, o_, w_, c_) in EDITS]  # /c/ml comes last: everything before it is its context
 # which kept paths read the edited variable only through a module attribute (consts.X) / with an untracked value type
 ATTR_READERS = {"str variable": ["/c/annotated"], "list variable": ["/c/items"], "dict variable": ["/c/items"], "bool variable": ["/c/flag"], "tuple variable": ["/c/pair"], "None variable": ["/c/pair"]}
 UNTRACKED_TYPES = {"bool variable", "tuple variable", "None variable"}
 # a function that is referenced (not called) through a module attribute (helpers.neg) is not discovered: nothing tracks the
 # edit, so the later sibling /c/rt (whose call-site context would carry it) is stale for the same reason
-FUN_ATTR_READERS = {"function referenced through a module attribute": ["/c/href", "/c/rt", "/c/dup"]}
+FUN_ATTR_READERS = {"function referenced through a module attribute": ["/c/href", "/c/rt", "/c/dup", "/c/ml"]}
 # a name bound by an import statement inside the function body is not resolved by the analysis: the callee is invisible
-LOCAL_IMPORT_READERS = {"callee imported inside the function body": ["/c/li", "/c/rt", "/c/dup"]}
+LOCAL_IMPORT_READERS = {"callee imported inside the function body": ["/c/li", "/c/rt", "/c/dup", "/c/ml"]}
 # a class that is referenced but not called (Conf.LIMIT) is not inspected at all
-CLASS_ATTR_READERS = {"class attribute read without a call": ["/c/clsattr", "/c/rt", "/c/dup"]}
+CLASS_ATTR_READERS = {"class attribute read without a call": ["/c/clsattr", "/c/rt", "/c/dup", "/c/ml"]}
 KNOWN_EDIT_CLASSES = {}
 
 MAIN_SCRIPT = '''
@@ -475,7 +485,7 @@ def edit(d, rel, old, new):
     shutil.rmtree(os.path.join(os.path.dirname(p), "__pycache__"), ignore_errors=True)
 
 
-FUN_OF = {"/c/crlf": "leaf_crlf", "/c/method": "leaf_method", "/c/clsattr": "leaf_clsattr", "/c/li": "leaf_li", "/c/dup": "dup_leaf", "/c/unit": "leaf_unit", "/c/batch": "leaf_batch", "/c/rate": "leaf_rate", "/c/tags": "leaf_tags", "/c/reexp": "leaf_reexp", "/c/top_args": "with_values", "/c/kw": "leaf_kw", "/c/href": "leaf_href", "/c/direct": "leaf_direct", "/c/plain": "leaf_plain", "/c/scaled": "leaf_scaled", "/c/items": "leaf_items", "/c/flag": "leaf_flag", "/c/pair": "leaf_pair", "/c/ext": "leaf_ext", "/c/args": "with_args:1", "/c/args2": "with_args:2", "/c/args3": "with_args:3", "/c/rt": "with_runtime", "/c/annotated": "annotated", "/c/ann_root": "root"}
+FUN_OF = {"/c/ml": "ml_leaf", "/c/crlf": "leaf_crlf", "/c/method": "leaf_method", "/c/clsattr": "leaf_clsattr", "/c/li": "leaf_li", "/c/dup": "dup_leaf", "/c/unit": "leaf_unit", "/c/batch": "leaf_batch", "/c/rate": "leaf_rate", "/c/tags": "leaf_tags", "/c/reexp": "leaf_reexp", "/c/top_args": "with_values", "/c/kw": "leaf_kw", "/c/href": "leaf_href", "/c/direct": "leaf_direct", "/c/plain": "leaf_plain", "/c/scaled": "leaf_scaled", "/c/items": "leaf_items", "/c/flag": "leaf_flag", "/c/pair": "leaf_pair", "/c/ext": "leaf_ext", "/c/args": "with_args:1", "/c/args2": "with_args:2", "/c/args3": "with_args:3", "/c/rt": "with_runtime", "/c/annotated": "annotated", "/c/ann_root": "root"}
 
 
 def main():
@@ -555,8 +565,8 @@ def main():
                     # a module variable of an unsupported type (set / frozenset) is outside the supported subset: it is
                     # identified by where it lives, so its reader (and what depends on the reader's position: the
                     # root, the later sibling with a run-time argument) legitimately differs in the copy
-                    by_location = {"/c/tags", "/c/rt", "/c/dup", "/c/ann_root"}
-                    moved = [c_ for c_ in cp["calls"] if c_ not in ("root", "leaf_tags", "with_runtime", "dup_leaf")]
+                    by_location = {"/c/tags", "/c/rt", "/c/dup", "/c/ml", "/c/ann_root"}
+                    moved = [c_ for c_ in cp["calls"] if c_ not in ("root", "leaf_tags", "with_runtime", "dup_leaf", "ml_leaf")]
                     if cp.get("error") or moved:
                         note(None, "code copied unchanged to another accepted module re-executed %s %s" % (moved, cp.get("error") or ""))
                     diff = [p for p in ALL if cp["sigs"].get(p) != base["sigs"].get(p) and p not in by_location]
